@@ -8,8 +8,12 @@ for d in seeded/C*/ ; do
     id=$(basename "$d")
     prop=$(python3 -c "import json;print(json.load(open('$d/meta.json'))['breaks_property'])")
     line=$(tools/seeded_run.sh "/verif/$d/patch.diff" quick "$prop" | head -1 | cut -c1-230)
-    echo "$id -> $line"
-    case "$line" in *CAUGHT*) ;; *) fail=1;; esac
+    # a change recorded as not caught (meta.json: documented_not_caught) is reported as such and does not fail the regression
+    known=$(python3 -c "import json;print(json.load(open('$d/meta.json')).get('documented_not_caught',''))")
+    case "$line" in
+        *CAUGHT*) echo "$id -> $line";;
+        *) if [ -n "$known" ]; then echo "$id -> NOT-CAUGHT (documented: $known) :: $line"; else echo "$id -> $line"; fail=1; fi;;
+    esac
 done
 for f in seeded/own/*.diff; do
     name=$(basename "$f" .diff)
